@@ -1388,4 +1388,16 @@ Tokens""")]),
     dict(id="getvalue-neutral-two-tests", kind=N, props=["C07", "C04"], expect="silent", edits=[("ast_utils.py",
          """    elif isinstance(node, (Constant, Expr, Return, Assign, AnnAssign, keyword, Index)):""",
          """    elif isinstance(node, (Constant, Index)) or isinstance(node, (Expr, Return, Assign, AnnAssign, keyword)):""")]),
+    # ---- STRIP-SET through a parameter, LIVE-TYPE (C19)
+    dict(id="stripset-namespace-as-character-set", kind=B, props=["C19"], expect="STRIP-SET", edits=[("pure_utils.py",
+         """        while namespace and s.startswith(namespace):
+            s = s[len(namespace) :]""", """        s = s.lstrip(namespace)""")]),
+    dict(id="livetype-annotation-object-formatted", kind=B, props=["C19"], expect="LIVE-TYPE", edits=[("parser_utils.py",
+         """            sig_param.annotation.__name__
+            if isinstance(sig_param.annotation, type)
+            else "{!s}".format(sig_param.annotation)""", """            "{!s}".format(sig_param.annotation)""")]),
+    dict(id="livetype-neutral-qualname", kind=N, props=["C19"], expect="silent", edits=[("parser_utils.py",
+         """            sig_param.annotation.__name__
+            if isinstance(sig_param.annotation, type)""", """            getattr(sig_param.annotation, "__qualname__")
+            if isinstance(sig_param.annotation, type)""")]),
 ]
